@@ -224,5 +224,7 @@ def replay(prop, path):
             return 1
         print("not reproduced: property holds on this case")
         return 0
-    from . import engines
     return engines.replay(prop, cand, path)
+
+
+from . import engines  # noqa: E402  (registers C05, C18, C19)
